@@ -201,7 +201,15 @@ func main() {
 		rep.Count("order_checks", int64(v.OrderChecks))
 		rep.Count("starts_in_flight_at_return", int64(v.LateStarts))
 		rep.Count("modules_restarted", int64(v.Restarts))
+		rep.Count("start_retried_within_one_pass", int64(v.RetriedInPass))
+		if v.RetriedInPass > 0 {
+			rep.Seen("start_retried_within_one_pass_cases", fmt.Sprintf("scenario %d (%s): %s", sc.ID, sc.Build, v.RetriedDetail))
+		}
 		rep.Count("change_notifications", r.out.Notifies)
+		rep.Count("ctrlfn_done_hook_delays", r.out.HookDelays)
+		if sc.NilMid != "" {
+			rep.Count("scenarios_with_nil_stop_inside_path", 1)
+		}
 		if v.StartNil {
 			rep.Count("start_returned_nil", 1)
 		} else {
